@@ -56,6 +56,22 @@ def make_tokens(bdir, rnd, tier):
                     pt = rnd.choice(pts)
                     req.append("jweenc\t%s\t-\t%s\t%s" % (G.dumps(tmpl), G.dumps(key), pt.hex() or "-"))
                     meta.append((wrap, enc, zip_, aadk, key, pt))
+    # ECDH-ES with PartyUInfo / PartyVInfo of DIFFERENT lengths carried in an unauthenticated header (only the key
+    # derivation binds them)
+    for wrap in G.EC_WRAPS[:2]:
+        for ul, vl, hn in ((5, 3, "unprotected"), (3, 9, "unprotected"), (17, 1, "header"), (2, 12, "header")):
+            key = G.wrap_key(rnd, keys, wrap, "A128GCM")
+            if key is None:
+                continue
+            tmpl = G.jwe_template(wrap, "A128GCM", False, None)
+            info = {"apu": G.b64(bytes(rnd.getrandbits(8) for _ in range(ul))), "apv": G.b64(bytes(rnd.getrandbits(8) for _ in range(vl)))}
+            rcp = "-"
+            if hn == "unprotected":
+                tmpl["unprotected"] = info
+            else:
+                rcp = G.dumps({"header": info})
+            req.append("jweenc\t%s\t%s\t%s\t%s" % (G.dumps(tmpl), rcp, G.dumps(key), b"party info".hex()))
+            meta.append((wrap, "A128GCM", False, "none", key, b"party info"))
     outs = G.harness(bdir, req)
     toks = []
     fails = []
@@ -97,6 +113,19 @@ def mutations(rnd, tok, meta, n):
                 continue
             t[m] = mutate_char(rnd, t[m])
         out.append((t, m))
+    # PartyUInfo / PartyVInfo of different lengths in an unauthenticated header: every octet of both enters the key derivation
+    for hn in ("header", "unprotected"):
+        h0 = tok.get(hn) or {}
+        for m in ("apu", "apv"):
+            if isinstance(h0.get(m), str) and h0[m]:
+                b = G.unb64(h0[m])
+                for pos, nm in ((0, "first"), (len(b) - 1, "last"), (len(b) // 2, "middle")):
+                    t = json.loads(json.dumps(tok))
+                    t[hn][m] = G.b64(b[:pos] + bytes([b[pos] ^ 1]) + b[pos + 1:])
+                    out.append((t, "%s-%s-octet" % (m, nm)))
+                t = json.loads(json.dumps(tok))
+                t[hn][m] = G.b64(b[:-1])
+                out.append((t, "%s-shortened" % m))
     # the other point with the same x coordinate: epk.y replaced by p - y (ECDH uses the x coordinate only)
     hh = tok.get("header") or tok.get("unprotected") or {}
     if isinstance(hh.get("epk"), dict) and hh["epk"].get("crv") in pyec.CURVES:
